@@ -268,6 +268,18 @@ def extra_args(cls, name, recv):
                 base = r._from[0] if r._from else (r._update_table or src)
                 return r.join(src).on(T.Field("a", table=base) == T.Field("x", table=src))
             out.append((f, [src]))
+        # an un-aliased table that shares only its NAME with the receiver's first source (another schema): not a self-join
+        base0 = recv._from[0] if recv._from else recv._update_table
+        if isinstance(base0, Q.Table):
+            for sch in (["other"], ["db", "other"]) if base0._schema is None else ([None, "other"]):
+                src = Q.Table(base0._table_name, schema=sch)
+                out.append(((lambda r, src=src, base0=base0: r.join(src).on(T.Field("a", table=base0) == T.Field("x", table=src))), [src]))
+        # the very object the receiver already joins, joined again the same way (the Join objects are shared between a builder and its copies)
+        for j in list(getattr(recv, "_joins", []))[:2]:
+            if isinstance(j, Q.JoinOn) and base0 is not None:
+                def g(r, j=j, base0=base0):
+                    return r.join(j.item, j.how).on(T.Field("b2", table=base0) == T.Field("y2", table=j.item))
+                out.append((g, [j.item]))
     return out
 
 
